@@ -262,14 +262,44 @@ func unsafeSlice(addr uintptr, n int) []byte {
 	return unsafe.Slice((*byte)(unsafe.Pointer(addr)), n)
 }
 
-// Prot returns only the protection of the secret's first page, from /proc/self/maps (much cheaper than smaps).
+// Prot returns only the protection of the secret's first page, from /proc/self/maps (much cheaper than smaps, whose cost grows
+// with the resident set of the process).
 func (s *Shadow) Prot() string {
+	_, p := s.mapsLookup()
+	return p
+}
+
+// Mapped reports whether the secret's first page is mapped at all (from /proc/self/maps).
+func (s *Shadow) Mapped() bool {
+	m, _ := s.mapsLookup()
+	return m
+}
+
+func hexval(b []byte) (uint64, bool) {
+	var v uint64
+	if len(b) == 0 {
+		return 0, false
+	}
+	for _, c := range b {
+		switch {
+		case c >= '0' && c <= '9':
+			v = v<<4 | uint64(c-'0')
+		case c >= 'a' && c <= 'f':
+			v = v<<4 | uint64(c-'a'+10)
+		default:
+			return 0, false
+		}
+	}
+	return v, true
+}
+
+func (s *Shadow) mapsLookup() (bool, string) {
 	if !s.tracked {
-		return "NONE"
+		return false, "NONE"
 	}
 	f, err := os.Open("/proc/self/maps")
 	if err != nil {
-		return ""
+		return false, ""
 	}
 	defer f.Close()
 	page := uintptr(os.Getpagesize())
@@ -289,18 +319,18 @@ func (s *Shadow) Prot() string {
 		if j+3 >= len(line) {
 			continue
 		}
-		lo, e1 := strconv.ParseUint(string(line[:i]), 16, 64)
-		hi, e2 := strconv.ParseUint(string(line[i+1:j]), 16, 64)
-		if e1 != nil || e2 != nil || !(uintptr(lo) <= start && start < uintptr(hi)) {
+		lo, ok1 := hexval(line[:i])
+		hi, ok2 := hexval(line[i+1 : j])
+		if !ok1 || !ok2 || !(uintptr(lo) <= start && start < uintptr(hi)) {
 			continue
 		}
 		switch {
 		case line[j+1] == 'r' && line[j+2] == 'w':
-			return "RW"
+			return true, "RW"
 		case line[j+1] == 'r':
-			return "RO"
+			return true, "RO"
 		}
-		return "NONE"
+		return true, "NONE"
 	}
-	return "NONE"
+	return false, "NONE"
 }
